@@ -752,7 +752,11 @@ Record SInv (s : st) : Prop := {
   si_pend : pend s = [];
   si_oof : oof s = false;
   si_reginfo : forall x r, In (x, r) (reg s) -> exists b, info s x = Some ((if r then KRoot else KManaged), b);
-  si_fin_alloc : forall x, info s x = None -> fin_count s x = 0
+  si_fin_alloc : forall x, info s x = None -> fin_count s x = 0;
+  si_ids : forall x, In x (ids s) <-> info s x <> None;
+  si_own : forall b p, fin_count s b = 0 -> owned s b = Some p ->
+                       exists k bb, info s p = Some (k, bb) /\ k <> KRaw;
+  si_own_none : forall b, info s b = None -> owned s b = None
 }.
 
 (* between events and before teardown, every managed or root object whose destructor has not
@@ -787,6 +791,15 @@ Proof.
       pose proof (si_fin_alloc _ S x Hx) as H0.
       destruct (Nat.eq_dec (fin_count s' x) 0) as [Hz|Hnz]; [exact Hz|].
       exfalso. apply (e_src _ _ E x H0); [lia | exact Hx].
+    + intros x. rewrite (e_ids _ _ E), (e_info _ _ E). apply S.
+    + intros b p Hfb Hown. rewrite (e_info _ _ E).
+      assert (H0 : fin_count s b = 0) by (pose proof (e_fin _ _ E b); lia).
+      apply (si_own _ S b p H0). rewrite <- (e_owned _ _ E b Hfb). exact Hown.
+    + intros b Hb. rewrite (e_info _ _ E) in Hb.
+      assert (H0 : fin_count s b = 0) by (apply (si_fin_alloc _ S); exact Hb).
+      destruct (Nat.eq_dec (fin_count s' b) 0) as [Hz|Hnz].
+      * rewrite (e_owned _ _ E b Hz). apply (si_own_none _ S). exact Hb.
+      * exfalso. apply (e_src _ _ E b H0); [lia | exact Hb].
   - intros R Ht x k b Hi Hk Hf.
     rewrite (e_torn _ _ E) in Ht. rewrite (e_info _ _ E) in Hi.
     assert (H0 : fin_count s x = 0) by (pose proof (e_fin _ _ E x); lia).
@@ -817,6 +830,8 @@ Proof.
       * intros y _. unfold free_count, fin_count, count, init; simpl; lia.
       * intros y [[]|[]].
     + intros y r [].
+    + intros y. simpl. split; [intros [] | intros H; exfalso; apply H; reflexivity].
+    + intros b p _ H. discriminate.
   - intros _ y k b H. discriminate.
 Qed.
 
@@ -863,6 +878,9 @@ Proof.
   - apply S.
   - intros x r' [Hx|Hx]; [inversion Hx; subst; exists b; exact Hb | apply (si_reginfo _ S); exact Hx].
   - apply S.
+  - apply S.
+  - apply S.
+  - apply S.
 Qed.
 
 (* one event of the repaired machine *)
@@ -890,7 +908,17 @@ Proof.
         + exfalso. apply Hno. unfold regids. apply in_map_iff. exists (o, r). auto.
         + rewrite (Hinfo1 x Hne). apply (si_reginfo _ S). exact Hx.
       - intros x Hx. destruct (Nat.eq_dec x o) as [->|Hne]; [exact Hfo|].
-        rewrite (Hinfo1 x Hne) in Hx. apply (si_fin_alloc _ S). exact Hx. }
+        rewrite (Hinfo1 x Hne) in Hx. apply (si_fin_alloc _ S). exact Hx.
+      - intros x. destruct (Nat.eq_dec x o) as [->|Hne].
+        + rewrite Hinfo1o. split; [discriminate | intros _; left; reflexivity].
+        + rewrite (Hinfo1 x Hne). unfold s1. simpl ids. split.
+          * intros [Hx|Hx]; [congruence | apply (si_ids _ S); exact Hx].
+          * intros Hx. right. apply (si_ids _ S). exact Hx.
+      - intros b p Hfb Hown. destruct (si_own _ S b p Hfb Hown) as (k1 & bb & Hi & Hk1).
+        destruct (Nat.eq_dec p o) as [->|Hne]; [congruence|].
+        exists k1, bb. rewrite (Hinfo1 p Hne). auto.
+      - intros b Hb. destruct (Nat.eq_dec b o) as [->|Hne]; [rewrite Hinfo1o in Hb; discriminate|].
+        rewrite (Hinfo1 b Hne) in Hb. apply (si_own_none _ S). exact Hb. }
     assert (R1 : RegAll s -> k = KRaw -> RegAll s1).
     { intros R Hk _ x k' b' Hi Hk' Hf. destruct (Nat.eq_dec x o) as [->|Hne].
       - rewrite Hinfo1o in Hi. congruence.
@@ -928,14 +956,34 @@ Proof.
       * split; [exact S2|]. intros R _. apply R2, R.
     + split; [exact S1|]. intros R _. apply R1; auto.
   - (* ELink b (Some o) *)
-    match goal with |- context [if ?c then _ else _] => destruct c end; [|apply SInv_set_bad'; exact S].
+    match goal with |- context [if ?c then _ else _] => destruct c eqn:Hc end; [|apply SInv_set_bad'; exact S].
+    apply andb_true_iff in Hc. destruct Hc as [Hc _].
+    apply andb_true_iff in Hc. destruct Hc as [Hc Hraw].
+    apply andb_true_iff in Hc. destruct Hc as [Hc Hlo].
+    apply andb_true_iff in Hc. destruct Hc as [Hlb _].
+    destruct (live_spec _ _ Hlb) as [_ Hib]. destruct (live_spec _ _ Hlo) as [_ Hio].
     split.
-    + constructor; try apply S. eapply GInv_same_core; try exact G; reflexivity.
+    + constructor; try apply S.
+      * eapply GInv_same_core; try exact G; reflexivity.
+      * intros b' p Hfb Hown. cbn [owned set_owned] in Hown. unfold upd_owned in Hown.
+        change (info (set_owned (upd_owned (owned s) b (Some o)) s) p) with (info s p).
+        destruct (Nat.eqb_spec b' b) as [->|Hne].
+        -- inversion Hown; subst p. unfold kind_of in Hraw.
+           destruct (info s o) as [[k1 bb]|]; [|congruence]. simpl in Hraw.
+           exists k1, bb. split; [reflexivity|]. intros ->. discriminate.
+        -- apply (si_own _ S b' p Hfb Hown).
+      * intros b' Hb'. cbn [owned set_owned]. unfold upd_owned.
+        destruct (Nat.eqb_spec b' b) as [->|Hne]; [contradiction | apply (si_own_none _ S); exact Hb'].
     + intros R _. exact R.
   - (* ELink b None *)
-    match goal with |- context [if ?c then _ else _] => destruct c end; [|apply SInv_set_bad'; exact S].
+    match goal with |- context [if ?c then _ else _] => destruct c eqn:Hc end; [|apply SInv_set_bad'; exact S].
     split.
-    + constructor; try apply S. eapply GInv_same_core; try exact G; reflexivity.
+    + constructor; try apply S.
+      * eapply GInv_same_core; try exact G; reflexivity.
+      * intros b' p Hfb Hown. cbn [owned set_owned] in Hown. unfold upd_owned in Hown.
+        destruct (Nat.eqb_spec b' b) as [->|Hne]; [discriminate | apply (si_own _ S b' p Hfb Hown)].
+      * intros b' Hb'. cbn [owned set_owned]. unfold upd_owned.
+        destruct (Nat.eqb_spec b' b) as [->|Hne]; [reflexivity | apply (si_own_none _ S); exact Hb'].
     + intros R _. exact R.
   - (* EDel *)
     destruct (live s o) eqn:Hlive; simpl andb; cbv iota; [|apply SInv_set_bad'; exact S].
@@ -981,6 +1029,9 @@ Proof.
       * exact P3.
       * apply S3.
       * intros x r [].
+      * apply S3.
+      * apply S3.
+      * apply S3.
       * apply S3.
     + intros _ _ Hc. discriminate.
 Qed.
